@@ -811,6 +811,13 @@ func c05CheckMaxCells(o *Out, op, cls, desc string, rc *s2.RegionCoverer, region
 
 // ---------------------------------------------------------------- float regions (relational)
 
+// "band" rectangles: degrees below the 45 degree apex of a cube edge, width and height in
+// degrees, offset of the centre longitude from the apex meridian as a fraction of the width
+var c05BandGaps = []float64{0.05, 0.5, 2, 6}
+var c05BandWidths = []float64{20, 40, 60, 80, 120, 170}
+var c05BandOffsets = []float64{0, 0.125, -0.2}
+var c05BandHeights = []float64{0.5, 8, 30}
+
 var c05Sizes = []float64{1e-7, 1e-5, 1e-3, 0.03, 0.3, 1.0, math.Pi/2 - 1e-7, math.Pi / 2, math.Pi/2 + 1e-7, 2.5, math.Pi - 1e-7, math.Pi}
 
 func c05PlacePoint(p [5]int) s2.Point {
@@ -886,6 +893,7 @@ func opC05Region(raw json.RawMessage, o *Out) {
 		Place [5]int
 		Size  int
 		Rect  [4]int
+		Band  [6]int
 		Cfgs  [][4]int
 	}
 	if err := json.Unmarshal(raw, &c); err != nil {
@@ -940,6 +948,35 @@ func opC05Region(raw json.RawMessage, o *Out) {
 		p = s2.PointFromLatLng(rect.Center())
 		extent = math.Max(rect.Lat.Length(), rect.Lng.Length()) / 2
 		seeds = append(seeds, c05RectSeeds(rect)...)
+	case "band":
+		// face, hemisphere, gap, width, offset, height (indices chosen by the generator)
+		deg := math.Pi / 180
+		apexLng := []float64{0, 90, 0, 180, -90, 0}[c.Band[0]] * deg
+		gap := c05BandGaps[c.Band[2]] * deg
+		w := c05BandWidths[c.Band[3]] * deg
+		off := c05BandOffsets[c.Band[4]] * w
+		h := c05BandHeights[c.Band[5]] * deg
+		lat := r1.Interval{Lo: 45*deg - gap, Hi: 45*deg - gap + h}
+		if c.Band[1] == 1 {
+			lat = r1.Interval{Lo: -lat.Hi, Hi: -lat.Lo}
+		}
+		lng := s1.IntervalFromEndpoints(math.Remainder(apexLng+off-w/2, 2*math.Pi), math.Remainder(apexLng+off+w/2, 2*math.Pi))
+		rect := s2.Rect{Lat: lat, Lng: lng}
+		region = rect
+		p = s2.PointFromLatLng(rect.Center())
+		ctr = p
+		extent = math.Max(rect.Lat.Length(), rect.Lng.Length()) / 2
+		seeds = append(seeds, c05RectSeeds(rect)...)
+		// along the meridian of the apex of the cube edge, inside and beside the sliver
+		for _, f := range []float64{-0.5, 0.05, 0.3, 0.6, 0.95, 1.5} {
+			la := 45*deg - gap + f*gap
+			if c.Band[1] == 1 {
+				la = -la
+			}
+			for _, dl := range []float64{0, -0.01 * w, 0.01 * w} {
+				seeds = append(seeds, s2.PointFromLatLng(s2.LatLng{Lat: s1.Angle(la), Lng: s1.Angle(math.Remainder(apexLng+dl, 2*math.Pi))}))
+			}
+		}
 	case "regloop":
 		n := []int{3, 4, 8, 33, 40}[(c.Place[0]+c.Place[1]+c.Size)%5]
 		rr := math.Min(r, 1.5)
@@ -991,6 +1028,9 @@ func opC05Region(raw json.RawMessage, o *Out) {
 	}
 	o.nontrivial = true
 	desc := fmt.Sprintf("%s at place %v (%.17g,%.17g,%.17g) size %g rect %v", c.Kind, c.Place, p.X, p.Y, p.Z, r, c.Rect)
+	if rr, ok := region.(s2.Rect); ok {
+		desc = fmt.Sprintf("%s %v (lat [%.6f, %.6f] lng [%.6f, %.6f] degrees)", c.Kind, c.Band, rr.Lat.Lo*180/math.Pi, rr.Lat.Hi*180/math.Pi, rr.Lng.Lo*180/math.Pi, rr.Lng.Hi*180/math.Pi)
+	}
 	// natural level: cells about as wide as the region
 	nat := 30
 	if extent > 0 {
